@@ -202,6 +202,9 @@ GPRE = "int n = 2\nint array A =\n    1, 2, 3, 4\n"
 GDECLS = [("decl", "int", "n", N("2")), ("arr", "int", "A", None, [[N("1"), N("2"), N("3"), N("4")]])]
 
 
+CYCLE = {"INT": ["2", "3", "1"], "FLOAT": ["0.5", "1.5", "0.25"], "COMPLEX": ["1+2j", "3-1j", "0.5j"]}
+
+
 def gtexts(toks):
     """concrete text per token (NAME depends on its role, REGREFs alternate)"""
     out = []
@@ -220,6 +223,10 @@ def gtexts(toks):
         elif t == "REGREF":
             out.append("q%d" % nreg)         # distinct registers, so that none cancels identically
             nreg += 1
+        elif t in CYCLE:
+            # repeated literals differ too: `1+2j - 1+2j` is zero, and a register or parameter multiplied by it is gone
+            k = sum(1 for x in toks[:i] if x == t)
+            out.append(CYCLE[t][k % len(CYCLE[t])])
         else:
             out.append(GTEXT[t])
     return out
